@@ -70,6 +70,9 @@ def split_by_marker(log_path: Path, cwd: str):
             elif parts[-1] == "END":
                 current = None
             continue
+        if call == "chdir" and ret.startswith("0") and paths:
+            # relative path arguments are interpreted against the working directory of the moment
+            cwd = os.path.normpath(paths[0] if paths[0].startswith("/") else os.path.join(cwd, paths[0]))
         if current is None:
             continue
         for path in paths:
